@@ -1,6 +1,7 @@
 use std::borrow::Cow;
 use std::collections::VecDeque;
 use std::fmt::Display;
+use std::net::SocketAddr;
 use std::ops::Deref;
 
 use tokio::net::TcpStream;
@@ -20,6 +21,7 @@ use super::{ClockId, SourceRemovedEvent, SpawnAction, SpawnEvent, Spawner, Spawn
 struct PoolSource {
     id: ClockId,
     remote: String,
+    address: SocketAddr,
 }
 
 pub struct NtsPoolSpawner {
@@ -76,6 +78,12 @@ impl NtsPoolSpawner {
         self.current_sources
             .iter()
             .any(|source| source.remote == domain)
+    }
+
+    fn contains_address(&self, address: SocketAddr) -> bool {
+        self.current_sources
+            .iter()
+            .any(|source| source.address == address)
     }
 
     async fn lookup(&mut self) -> Option<(TcpStream, String, Option<String>)> {
@@ -183,10 +191,16 @@ impl Spawner for NtsPoolSpawner {
                     ))
                     .await
                     {
+                        // Different names can resolve to the same server.
+                        if self.contains_address(address) {
+                            warn!("received an address from pool-ke that we already had, ignoring");
+                            continue;
+                        }
                         let id = ClockId::new();
                         self.current_sources.push(PoolSource {
                             id,
                             remote: remote_name.unwrap_or(ke.remote),
+                            address,
                         });
                         action_tx
                             .send(SpawnEvent::new(
